@@ -548,6 +548,61 @@ pub async fn run_op(mut h: ContextHandle, spec: OpSpec) -> OpOut {
     }
 }
 
+/// The same call made EAGERLY: `handle.publish(..)` / `subscribe(..)` / ... is called when the
+/// operation is started, and the future it returns is polled later. With `async fn` methods the two
+/// are indistinguishable; a method that does part of its work at call time (reserving an identifier,
+/// say) behaves differently when futures are created in one order and first polled in another.
+/// The future borrows the handle and the option strings, which live in boxes owned by this struct
+/// and declared after it (dropped after it).
+pub struct EagerOp {
+    inner: std::pin::Pin<Box<dyn std::future::Future<Output = OpOut>>>,
+    _handle: Box<ContextHandle>,
+    _spec: Box<OpSpec>,
+}
+
+impl EagerOp {
+    pub fn new(h: ContextHandle, spec: OpSpec) -> Self {
+        let mut handle = Box::new(h);
+        let spec = Box::new(spec);
+        let hp: *mut ContextHandle = &mut *handle;
+        let sp: *const OpSpec = &*spec;
+        // SAFETY: both boxes outlive `inner` (field order) and are never touched again
+        let inner: std::pin::Pin<Box<dyn std::future::Future<Output = OpOut>>> = unsafe {
+            let h: &'static mut ContextHandle = &mut *hp;
+            match &*sp {
+                OpSpec::Publish(p) => {
+                    let f = h.publish(apply_publish(p));
+                    Box::pin(async move { OpOut::Unit(f.await) })
+                }
+                OpSpec::Subscribe(s) => {
+                    let f = h.subscribe(apply_subscribe(s));
+                    Box::pin(async move { OpOut::Sub(f.await) })
+                }
+                OpSpec::Unsubscribe(s) => {
+                    let f = h.unsubscribe(apply_unsubscribe(s));
+                    Box::pin(async move { OpOut::Unsub(f.await) })
+                }
+                OpSpec::Ping => {
+                    let f = h.ping();
+                    Box::pin(async move { OpOut::Unit(f.await) })
+                }
+                OpSpec::Disconnect(d) => {
+                    let f = h.disconnect(apply_disconnect(d));
+                    Box::pin(async move { OpOut::Unit(f.await) })
+                }
+            }
+        };
+        Self { inner, _handle: handle, _spec: spec }
+    }
+}
+
+impl std::future::Future for EagerOp {
+    type Output = OpOut;
+    fn poll(self: std::pin::Pin<&mut Self>, cx: &mut std::task::Context<'_>) -> std::task::Poll<OpOut> {
+        self.get_mut().inner.as_mut().poll(cx)
+    }
+}
+
 // ---------------------------------------------------------------------------------
 // summaries of everything readable through public accessors
 
